@@ -264,6 +264,24 @@ def run(ctx):
                     bounded = True
             ctx.check(bounded, "R06.5", "%s|bounded-by-sample-size" % n, "sampling is bounded by the configured sample size", f.where())
     ctx.floor("R06.5", "sample push sites", n_push, 1)
+    # refill gives up only when the sample is full again or the source has no more keys to offer: any other early exit
+    # (e.g. a shortcut on the size of the source) can leave an evictable key unsampled and a fitting put refused
+    from core import lt_truth
+    n_refill = 0
+    for n, f in F.fns.items():
+        if f.kind == "Closure" or "MinHeapSamples" not in f.rec.get("self_ty", "") or not f.calls_to("HashSet::<T, S, A>::contains") or not f.calls_to("BinaryHeap::<T, A>::push"):
+            continue
+        n_refill += 1
+        bad = []
+        for sp in ipaths(F, f, stop=lambda x: True, depth=1):
+            full = [lt_truth(a, lambda z: is_call_to(z, "BinaryHeap::<T, A>::len"), lambda z: z[0] == "field" and z[2] == "sample_size") for a in sp.atoms]
+            exhausted = [a for a in sp.atoms if a[0] == "enum" and is_call_to(a[1], "::next") and a[2] == ("None",)]
+            if not any(x is False for x in full) and not exhausted:
+                bad.append(sp)
+        ctx.check(not bad, "R06.5", "%s|refill-stops-only-when-full-or-exhausted" % n,
+                  "the refill returns only after the sample is full again (sample.len() >= sample_size) or the source iterator is exhausted", f.where(),
+                  "; ".join(q.show() for q in bad[:2]))
+    ctx.floor("R06.5", "sample refill functions", n_refill, 1)
     for pn in sorted(pop_fns):
         g = F.fn(pn)
         rm = g.calls_to("std::collections::HashSet::<T, S, A>::remove")
